@@ -3,8 +3,8 @@
 Interface to the Lean model: TOKEN level.  A case is a syntax tree (in the constructor format of
 lean/PyxModel/Oal, which also records the optional words that were written) or, for the malformed
 family, a bare token list.  The harness
-  * prints the tree to tokens with its OWN printer (minimal parentheses from the `precedence` tuple of
-    the workspace copy of bridgepoint/oal.py — not from PLY's generated tables),
+  * prints the tree to tokens with its OWN printer (minimal parentheses from the order STATED IN THE PROPERTY, the
+    table SPEC below — neither the `precedence` tuple of the code under test nor PLY's generated tables are read),
   * lays the tokens out as text (spaces, tabs, CR, newlines, /* */ and // comments between tokens — block comments with inner stars and
     slashes, ending in one to four stars, empty, multi-line, several per line, glued to the neighbouring tokens; `NS::`
     kept fused; `end if|for|while` one token with varied inner white space),
@@ -98,7 +98,7 @@ SPEC_UNARY = 7
 _oal = None
 _parser = None
 _lexer = None
-_TABLE = None       # token name -> (level, assoc) from the workspace's `precedence`
+_TABLE = None       # token name -> (level, assoc) as STATED IN THE PROPERTY (SPEC)
 _ULEVEL = None
 _CTX = None
 
@@ -129,20 +129,21 @@ def setup(ctx):
     # current `OALParser.text_input` up to the point where it hands its lexer to the LALR parser, so the lexer carries
     # text_input's own lex.lex arguments and every attribute it sets (`label`, ...); nothing reads `oal.logger`
     import gen_oal_text as G
-    _lexer = G.oal_lexer(_parser if _parser is not None else object.__new__(oal.OALParser), '<harness>')
+    try:
+        _lexer = G.oal_lexer(_parser if _parser is not None else object.__new__(oal.OALParser), '<harness>')
+    except Exception:       # the lexer rules do not build: every case observes `lexer-raised` (and the parse says why)
+        _lexer = None
     here = os.path.realpath(os.path.dirname(oal.__file__))
     for name in ('bridgepoint.__oal_parsetab', 'bridgepoint.__oal_lextab'):
         m = sys.modules.get(name)
         if m is not None and not os.path.realpath(getattr(m, '__file__', here)).startswith(here):
             from common import HarnessError
             raise HarnessError('%s was loaded from %s, not rebuilt from the workspace grammar' % (name, m.__file__))
-    table = {}
-    rows = tuple(oal.OALParser.precedence)
-    for i, row in enumerate(rows):
-        for nm in row[1:]:
-            table[nm] = (i + 1, row[0])
-    _TABLE = table
-    _ULEVEL = table.get('UNARY', (len(rows) + 1, 'right'))[0]
+    # (robustness pattern 8) the printer's parentheses come from the order STATED IN THE PROPERTY (SPEC), not from the
+    # `precedence` tuple of the code under test: the text of every tree family is what the property says the tree is
+    # written as, whatever the workspace's table says
+    _TABLE = dict((k, (lv, 'nonassoc' if lv == 3 else 'left')) for k, lv in SPEC.items())
+    _ULEVEL = SPEC_UNARY
 
 
 # ------------------------------------------------------------------------------------------ printer (Python oracle)
@@ -1327,7 +1328,7 @@ def run_lexedge(case):
         lay = case['lay']
         text = lay[0] + ''.join(lx + g for (_, lx), g in zip(written, lay[1:]))
     got = _ply_tokens(text)
-    tree, f = _ply_tree(text, case.get('i', 0) % 2 == 0)
+    tree, f = _ply_tree(text, 'text' in case or case.get('i', 0) % 4 == 0)     # oal.parse: every hand-written text, a quarter of the pairs
     stats = {'cases_lexedge': 1, 'lexedge_' + ('rejected' if tree == S('ParseException') else 'parsed'): 1}
     if written is not None:
         stats['lexedge_pair_' + ('lexed_as_written' if got == written else 'lexed_differently')] = 1
@@ -1350,7 +1351,7 @@ def generate(ctx):
         yield c
     for c in gen_soup(ctx, ctx.pick(3000, 30000)):
         yield c
-    for c in gen_seq(ctx, ctx.pick(400, 6000)):
+    for c in gen_seq(ctx, ctx.pick(300, 6000)):
         yield c
     for c in gen_lexedge(ctx):
         yield c
@@ -1434,6 +1435,41 @@ def _ply_tokens(text, lx=None):
             return [('lexer-raised', type(e).__name__)]
 
 
+def _derived_views(node, fails, text):
+    """(robustness pattern 9) the views of a parsed tree that the field-by-field comparison does not read — `children`
+    (what every Walker traverses), `many`, `key_letter`, `port_name` — against what the constructor fields say: the
+    node-valued fields, in constructor order, are exactly the nodes among `children`; list nodes list their items"""
+    from oal_sexp import _fields
+    N_ = _oal.Node
+    stack = [node]
+    while stack and len(fails) < 2:
+        n = stack.pop()
+        cls = type(n).__name__
+        f = _fields(type(n))
+        try:
+            ch = n.children
+            ch = list(ch) if ch is not None else []
+        except Exception as e:
+            ch = [S('children-raised'), type(e).__name__]
+        if f:
+            exp = [getattr(n, x) for x in f if isinstance(getattr(n, x), N_)]
+            act = [c for c in ch if isinstance(c, N_)]
+            if [id(x) for x in exp] != [id(x) for x in act]:
+                fails.append({'sig': 'children-view', 'what': 'text %r: %s.children gives %s, its node-valued fields are %s'
+                              % (text, cls, [type(c).__name__ for c in ch], [type(c).__name__ for c in exp])})
+            stack.extend(exp)
+        else:
+            stack.extend(c for c in ch if isinstance(c, N_))
+        card = getattr(n, 'cardinality', None)
+        if cls.startswith('Select') and isinstance(card, str) and n.many != (card.upper() == 'MANY'):
+            fails.append({'sig': 'derived-view-many', 'what': 'text %r: %s written with %r has many = %r' % (text, cls, card, n.many)})
+        for attr in ('key_letter', 'port_name'):
+            if cls in ('ClassInvocationNode', 'BridgeInvocationNode', 'PortInvocationNode') and \
+                    hasattr(type(n), attr) and getattr(n, attr) != n.namespace:
+                fails.append({'sig': 'derived-view-' + attr, 'what': 'text %r: %s.%s = %r, written namespace %r'
+                              % (text, cls, attr, getattr(n, attr), n.namespace)})
+
+
 def _ply_tree(text, via_parse):
     """-> (encoded tree | ParseException | (parser-raised X), failure or None)"""
     from oal_sexp import encode
@@ -1466,14 +1502,14 @@ def run_impl(case):
                               % (text, got[k:k + 3], want[k:k + 3], k)})
     # the real parser (one reused OALParser; a sample goes through oal.parse itself)
     # the public entry `oal.parse(text)` (a new OALParser per call: ~7 ms) for a sample of the texts that end with their
-    # last token, for a quarter of those that go on after it (blanks, line break, block comment, terminated `//`
+    # last token, for a fifth of those that go on after it (blanks, line break, block comment, terminated `//`
     # comment, layout before the first token) and for EVERY text that ends in a `//` comment without a line break:
     # `parse` has to complete the text; all other texts go through the worker's one OALParser (`text_input`)
     last = want[-1][1] if want else ''
     tail = text[text.rfind(last) + len(last):] if last else text
     lay_no = case.get('lay', 0)
     via_parse = _parser is None or lay_no % 40 == 0 or ('//' in tail and not tail.endswith('\n')) or \
-        ((tail or text != text.lstrip()) and lay_no % 4 == 0)
+        ((tail or text != text.lstrip()) and lay_no % 5 == 0)
     root = None
     try:
         root = _oal.parse(text) if via_parse else _parser.text_input(text + '\n')
@@ -1485,6 +1521,7 @@ def run_impl(case):
                       'what': 'oal.parse(%r) raised %s: %s' % (text, type(e).__name__, str(e)[:200])})
     if root is not None:
         obs_tree = encode(root)
+        _derived_views(root, fails, text)
     if tree is not None:
         want_tree = y_body(tree)
         if obs_tree != want_tree:
